@@ -382,7 +382,7 @@ Print Assumptions C13_source_key_match_iff.
    IdxLang.v: called on a pattern at the position just after a '[' (whatever precedes it), the source function returns -1
    exactly when the model's range_match says "no match" and otherwise the index at which the model's remaining suffix
    starts.  The first tie through a `while True:` loop with break; the fuel 38 + |p| always suffices. *)
-From Coq Require Import ZArith.
+From Coq Require Import ZArith Arith.
 From PyCasbin Require IdxLang IdxTie.
 From PyCasbinGen Require RangeMatchGen.
 
@@ -402,6 +402,35 @@ Example C13_source_range_example :
   /\ IdxLang.xrun 60 RangeMatchGen.range_match_params RangeMatchGen.range_match_locals RangeMatchGen.range_match_gen
        [IdxLang.XS [91;33;97;93]; IdxLang.XZ 1; IdxLang.XS [98]] = Ok (IdxLang.XZ 4).
 Proof. vm_compute. repeat split; reflexivity. Qed.
+
+(* glob_match itself, regenerated from the source on this run and executed by the interpreter of GlobLang.v (its calls to
+   range_match executed by IdxLang's interpreter on the regenerated range_match, its recursive calls by the same interpreter
+   with one unit less fuel): for every string and pattern, from some fuel on the run returns exactly the model's boolean -
+   hence True exactly on the denotational glob language. *)
+From PyCasbin Require GlobLang GlobTie.
+From PyCasbinGen Require GlobMatchGen.
+
+Theorem C13_source_glob_match : forall s p,
+  exists b, glob_match s p = Ok b /\
+  exists N, forall n, (N <= n)%nat -> GlobLang.grun GlobTie.D n [IdxLang.XS s; IdxLang.XS p] = Ok (IdxLang.XB b).
+Proof. exact GlobTie.tie_glob_match. Qed.
+Print Assumptions C13_source_glob_match.
+
+Theorem C13_source_glob_match_iff : forall s p,
+  (exists N, forall n, (N <= n)%nat -> GlobLang.grun GlobTie.D n [IdxLang.XS s; IdxLang.XS p] = Ok (IdxLang.XB true)) <-> glob_lang p s.
+Proof.
+  intros s p. destruct (GlobTie.tie_glob_match s p) as (b & Hb & N & HN). rewrite <- glob_iff. split.
+  - intros (N' & HN'). specialize (HN (max N N') (Nat.le_max_l _ _)). specialize (HN' (max N N') (Nat.le_max_r _ _)).
+    rewrite HN in HN'. inversion HN'; subst b. exact Hb.
+  - intro H. rewrite H in Hb. inversion Hb; subst b. exists N. exact HN.
+Qed.
+Print Assumptions C13_source_glob_match_iff.
+
+Example C13_source_glob_example :
+  (* "/a/*/[b-d]?" on "/a/xyz/cq" ; "*" never crosses "/" *)
+  GlobLang.grun GlobTie.D 400 [IdxLang.XS [47;97;47;120;121;122;47;99;113]; IdxLang.XS [47;97;47;42;47;91;98;45;100;93;63]] = Ok (IdxLang.XB true)
+  /\ GlobLang.grun GlobTie.D 400 [IdxLang.XS [47;97;47;120;47;121]; IdxLang.XS [47;97;47;42]] = Ok (IdxLang.XB false).
+Proof. vm_compute. split; reflexivity. Qed.
 
 Example C13_source_example :
   StrTie.run_key_match [47;102;111;111;47;98;97;114] [47;102;111;111;47;42] = Ok (StrLang.SVB true)
